@@ -255,7 +255,7 @@ func init() {
 		// wide: the old generation's handle closes while the new generation's handle accepts;
 		// every connection / datagram must be handled by exactly one of them (none lost, none twice)
 		for _, sc := range handover() {
-			engine.ExploreS(ctx, sc, engine.SConfig{Bound: bound + 2, Shard: ctx.Shard, NShards: ctx.NShards, Deadline: ctx.Deadline})
+			engine.ExploreS(ctx, sc, engine.SConfig{BothPolicies: true, Bound: bound + 2, Shard: ctx.Shard, NShards: ctx.NShards, Deadline: ctx.Deadline})
 		}
 	})
 	hk.Replayers["C11"] = func(ctx *engine.Ctx, rp engine.Replay) []*engine.Finding {
